@@ -1,4 +1,5 @@
 import HexVerif.Lemmas.XcmpStage4Callee
+import HexVerif.Lemmas.XcmpActualsP
 /-!
   Stage (4), the caller: the code of `genFuncCall` / `genProcCall` with call-free actuals, given
   the specification of the callee.
@@ -187,6 +188,142 @@ theorem callKind_po (pj : PInfo) : pj.callKind.paramOffset = pj.po := by
 theorem toNat_ofNat_lt (n : Nat) (h : n < 2 ^ 32) : (BitVec.ofNat 32 n).toNat = n := by
   simp only [BitVec.toNat_ofNat]; omega
 
+/-- **The branch and link of a user call**, with the actuals already in the outgoing area. -/
+theorem exec_calltail {G : GCtx} (ok : G.OK) (fuel : Nat) (hcs : CallSpec G fuel) {pi : PInfo} (hpi : pi ∈ G.procs)
+    {pj : PInfo} (hpj : pj ∈ G.procs) (sp dep : Nat) (hi : Nat → Word) (hlo : G.lo ≤ sp) (hspv : sp + G.S pi + pi.po + pi.p.formals.length ≤ G.spv + 1)
+    (hstack : G.spv ≤ sp + dep * G.smax) (s : X.St) (ws : List Val) (hokv : ∀ v ∈ ws, okV v = true)
+    (lc off j : Nat) (a1 b1 : Word) (mem1 : Mem)
+    (hat2 : At G.env.ds j (lowerCode G.cg (callTail pj.callKind lc)))
+    (rep1s : Rep (KOf G pi sp dep hi) s mem1)
+    (hvals : ∀ k (hk : k < ws.length), mem1.read (sp + pj.po + k) = wordOf G.abase ws[k])
+    (hroom : pj.po + ws.length ≤ G.S pi) (hq : pi.p.locals.length + pj.po ≤ G.S pi) (hoff : pj.po + off ≤ G.S pi) :
+    match X.callUser fuel G.xc pj.p ws s with
+    | .ok res s' => ∃ a' b' mem', Steps G.env (cfg j a1 b1 mem1) s.io
+          (cfg (j + (lowerCode G.cg (callTail pj.callKind lc)).length) a' b' mem') s'.io ∧
+        Rep (KOf G pi sp dep hi) s' mem' ∧ (pj.p.isFunc = true → ∀ w, res = some w → a' = w) ∧
+        FrmC (KOf G pi sp dep hi) off (G.S pi) mem1 mem'
+    | .exit cd s' => ∃ c, Steps G.env (cfg j a1 b1 mem1) s.io c s'.io ∧ Exit G.env c s'.io cd
+    | .undef _ => True := by
+  have wf := ok.wfs pi hpi sp dep hi hlo hspv
+  have hfrm : ∀ (q : Nat) (mem1 mem2 : Mem), q + off ≤ G.S pi → (∀ x, sp + q ≤ x → ¬ G.inArr x → mem2.read x = mem1.read x) →
+      FrmC (KOf G pi sp dep hi) off (G.S pi) mem1 mem2 := by
+    intro q mem1 mem2 hq hk a hsp hna hne
+    have hsp' : sp ≤ a := hsp
+    by_cases ha : sp + q ≤ a
+    · exact hk a ha hna
+    · exfalso
+      apply hne (G.S pi - 1 - (a - sp)) (by omega) (by omega)
+      show a = sp + G.S pi - 1 - (G.S pi - 1 - (a - sp))
+      omega
+  have grep := Rep.toG ok hpi rep1s
+  have hdep : s.depth = dep := rep1s.depth
+  have hpo := po_pos pj
+  -- the branch and link
+  have hproL := (ok.at_pro pj hpj).head
+  have lPro := labelIdx_of_nodup _ _ _ _ ok.nodup hproL
+  cases hf : pj.p.isFunc with
+  | true =>
+    have hk : pj.callKind = .func pj.p.name := by unfold PInfo.callKind; rw [hf]; rfl
+    have hpo2 : pj.po = 2 := by unfold PInfo.po; rw [hf]; rfl
+    rw [hk] at hat2 ⊢
+    have htail : lowerCode G.cg (callTail (.func pj.p.name) lc)
+        = [.ref 0x5 (lab lc) true, .ref 0x9 pj.p.name true, .label .plain (lab lc),
+           .imm 0x0 1, .imm 0x6 1] := rfl
+    rw [htail] at hat2 ⊢
+    have t0 := hat2.get 0 _ rfl
+    have t1 := hat2.get 1 _ rfl
+    have t2 := hat2.get 2 _ rfl
+    have t3 := hat2.get 3 _ rfl
+    have t4 := hat2.get 4 _ rfl
+    simp only [Nat.add_zero] at t0
+    have lLnk := labelIdx_of_nodup _ _ _ _ ok.nodup t2
+    have haddr := ok.addr_lt _ _ _ t2
+    have sLdap := Step.ldapL (env := G.env) (cfg (j) a1 b1 mem1) s.io _ _ t0 lLnk
+    have sBr := Step.br (env := G.env)
+      (cfg (j + 1) (BitVec.ofNat 32 (G.env.addr (j + 2))) b1 mem1)
+      s.io _ _ t1 lPro
+    have hspec := hcs pj hpj ws s (BitVec.ofNat 32 (G.env.addr (j + 2))) b1 mem1 sp
+      (j + 2) .plain _ grep rep1s.sp hokv
+      (fun j hj => by have := hvals j hj; rw [Nat.add_assoc] at this ⊢; exact this)
+      (by rw [hdep]; exact hstack) (by omega) hlo t2 (toNat_ofNat_lt _ haddr).symm
+    cases hx : X.callUser fuel G.xc pj.p ws s with
+    | undef w => trivial
+    | exit cd s' =>
+      rw [hx] at hspec
+      obtain ⟨c, hs, he⟩ := hspec
+      exact ⟨c, Steps.step _ _ _ _ _ _ sLdap (Steps.step _ _ _ _ _ _ sBr hs), he⟩
+    | ok res s' =>
+      rw [hx] at hspec
+      obtain ⟨a2, b2, mem2, hs, grep2, h21, hkeep, hres, _⟩ := hspec
+      obtain ⟨hl', hd'⟩ := callUser_frame _ _ _ _ _ _ _ hx
+      have rep2 := rep_return ok hpi sp dep hi hlo hspv rep1s grep2 hl' hd' h21 2
+        (fun x hx hna => hkeep x (by omega) (by omega) hna) (by omega)
+      have sLab := Step.label (env := G.env) (cfg (j + 2) a2 b2 mem2) s'.io _ _ t2
+      have sLdam := Step.ldam (env := G.env) (cfg (j + 2 + 1) a2 b2 mem2) s'.io 1 _ t3 (ld_one mem2)
+      have hs1lt : sp + 1 < memWords := by have := ok.top; unfold memWords at *; omega
+      have l3 : Isa.ld mem2 (mem2.read 1 + IAm.W 1) = some (mem2.read (sp + 1)) := by
+        rw [h21, W_one]
+        have := ofNat_add_W sp 1
+        rw [show IAm.W ((1 : Nat) : Int) = 1 from W_one] at this
+        rw [this, ld_ofNat _ _ hs1lt]
+      have sLdai := Step.ldai (env := G.env) (cfg (j + 2 + 1 + 1) (mem2.read 1) b2 mem2) s'.io 1 _ t4 l3
+      refine ⟨mem2.read (sp + 1), b2, mem2, ?_, rep2, fun _ w hw => hres w hw,
+        hfrm 2 mem1 mem2 (by omega) (fun x hx hna => hkeep x (by omega) (by omega) hna)⟩
+      have : j + [Dir.ref 0x5 (lab lc) true, .ref 0x9 pj.p.name true,
+          .label .plain (lab lc), .imm 0x0 1, .imm 0x6 1].length
+          = j + 2 + 1 + 1 + 1 := by simp
+      rw [this]
+      exact Steps.step _ _ _ _ _ _ sLdap (Steps.step _ _ _ _ _ _ sBr (hs.trans
+        (Steps.step _ _ _ _ _ _ sLab (Steps.step _ _ _ _ _ _ sLdam (Steps.one sLdai)))))
+  | false =>
+    have hk : pj.callKind = .proc pj.p.name := by unfold PInfo.callKind; rw [hf]; rfl
+    have hpo1 : pj.po = 1 := by unfold PInfo.po; rw [hf]; rfl
+    rw [hk] at hat2 ⊢
+    have htail : lowerCode G.cg (callTail (.proc pj.p.name) lc)
+        = [.ref 0x5 (lab lc) true, .ref 0x9 pj.p.name true, .label .plain (lab lc)] := rfl
+    rw [htail] at hat2 ⊢
+    have t0 := hat2.get 0 _ rfl
+    have t1 := hat2.get 1 _ rfl
+    have t2 := hat2.get 2 _ rfl
+    simp only [Nat.add_zero] at t0
+    have lLnk := labelIdx_of_nodup _ _ _ _ ok.nodup t2
+    have haddr := ok.addr_lt _ _ _ t2
+    have sLdap := Step.ldapL (env := G.env) (cfg (j) a1 b1 mem1) s.io _ _ t0 lLnk
+    have sBr := Step.br (env := G.env)
+      (cfg (j + 1) (BitVec.ofNat 32 (G.env.addr (j + 2))) b1 mem1)
+      s.io _ _ t1 lPro
+    have hspec := hcs pj hpj ws s (BitVec.ofNat 32 (G.env.addr (j + 2))) b1 mem1 sp
+      (j + 2) .plain _ grep rep1s.sp hokv
+      (fun j hj => by have := hvals j hj; rw [Nat.add_assoc] at this ⊢; exact this)
+      (by rw [hdep]; exact hstack) (by omega) hlo t2 (toNat_ofNat_lt _ haddr).symm
+    cases hx : X.callUser fuel G.xc pj.p ws s with
+    | undef w => trivial
+    | exit cd s' =>
+      rw [hx] at hspec
+      obtain ⟨c, hs, he⟩ := hspec
+      exact ⟨c, Steps.step _ _ _ _ _ _ sLdap (Steps.step _ _ _ _ _ _ sBr hs), he⟩
+    | ok res s' =>
+      rw [hx] at hspec
+      obtain ⟨a2, b2, mem2, hs, grep2, h21, hkeep, _, hsame⟩ := hspec
+      obtain ⟨hl', hd'⟩ := callUser_frame _ _ _ _ _ _ _ hx
+      have rep2 := rep_return ok hpi sp dep hi hlo hspv rep1s grep2 hl' hd' h21 1
+        (fun x hx hna => by
+          by_cases h1 : x = sp + 1
+          · subst h1; exact hsame hf
+          · exact hkeep x (by omega) h1 hna) (by omega)
+      have sLab := Step.label (env := G.env) (cfg (j + 2) a2 b2 mem2) s'.io _ _ t2
+      refine ⟨a2, b2, mem2, ?_, rep2, fun h => by simp at h,
+        hfrm 1 mem1 mem2 (by omega) (fun x hx hna => by
+          by_cases h1 : x = sp + 1
+          · subst h1; exact hsame hf
+          · exact hkeep x (by omega) h1 hna)⟩
+      have : j + [Dir.ref 0x5 (lab lc) true, .ref 0x9 pj.p.name true,
+          .label .plain (lab lc)].length
+          = j + 2 + 1 := by simp
+      rw [this]
+      exact Steps.step _ _ _ _ _ _ sLdap (Steps.step _ _ _ _ _ _ sBr (hs.trans (Steps.one sLab)))
+
+
 /-- **A user call with call-free actuals**, as a statement or as the whole right-hand side: the
     code of `genFuncCall` / `genProcCall`, given the specification of callees. -/
 theorem exec_usercall {G : GCtx} (ok : G.OK) (fuel : Nat) (hcs : CallSpec G fuel) {pi : PInfo} (hpi : pi ∈ G.procs)
@@ -247,113 +384,177 @@ theorem exec_usercall {G : GCtx} (ok : G.OK) (fuel : Nat) (hcs : CallSpec G fuel
   have hdep : s.depth = dep := rep1s.depth
   -- the branch and link
   have hat2 : At G.env.ds (i + (lowerCode G.cg c2).length) (lowerCode G.cg (callTail pj.callKind gs2.labelCount)) := hat.right
-  have hproL := (ok.at_pro pj hpj).head
-  have lPro := labelIdx_of_nodup _ _ _ _ ok.nodup hproL
   have hio : s.io = st.io := hs2.2.2.2.1
-  cases hf : pj.p.isFunc with
-  | true =>
-    have hk : pj.callKind = .func pj.p.name := by unfold PInfo.callKind; rw [hf]; rfl
-    have hpo2 : pj.po = 2 := by unfold PInfo.po; rw [hf]; rfl
-    rw [hk] at hat2 ⊢
-    have htail : lowerCode G.cg (callTail (.func pj.p.name) gs2.labelCount)
-        = [.ref 0x5 (lab gs2.labelCount) true, .ref 0x9 pj.p.name true, .label .plain (lab gs2.labelCount),
-           .imm 0x0 1, .imm 0x6 1] := rfl
-    rw [htail] at hat2 ⊢
-    have t0 := hat2.get 0 _ rfl
-    have t1 := hat2.get 1 _ rfl
-    have t2 := hat2.get 2 _ rfl
-    have t3 := hat2.get 3 _ rfl
-    have t4 := hat2.get 4 _ rfl
-    simp only [Nat.add_zero] at t0
-    have lLnk := labelIdx_of_nodup _ _ _ _ ok.nodup t2
-    have haddr := ok.addr_lt _ _ _ t2
-    have sLdap := Step.ldapL (env := G.env) (cfg (i + (lowerCode G.cg c2).length) a1 b1 mem1) st.io _ _ t0 lLnk
-    have sBr := Step.br (env := G.env)
-      (cfg (i + (lowerCode G.cg c2).length + 1) (BitVec.ofNat 32 (G.env.addr (i + (lowerCode G.cg c2).length + 2))) b1 mem1)
-      st.io _ _ t1 lPro
-    have hspec := hcs pj hpj ws s (BitVec.ofNat 32 (G.env.addr (i + (lowerCode G.cg c2).length + 2))) b1 mem1 sp
-      (i + (lowerCode G.cg c2).length + 2) .plain _ grep rep1s.sp hokv
-      (fun j hj => by have := hvals j hj; rw [Nat.add_assoc] at this ⊢; exact this)
-      (by rw [hdep]; exact hstack) (by omega) hlo t2 (toNat_ofNat_lt _ haddr).symm
-    cases hx : X.callUser fuel G.xc pj.p ws s with
+  have hct := exec_calltail ok fuel hcs hpi hpj sp dep hi hlo hspv hstack s ws hokv gs2.labelCount gs.offset
+    (i + (lowerCode G.cg c2).length) a1 b1 mem1 hat2 rep1s (fun k hk => hvals k hk) (by omega) (by omega) (by omega)
+  cases hx : X.callUser fuel G.xc pj.p ws s with
+  | undef w => trivial
+  | exit cd s' =>
+    rw [hx] at hct
+    obtain ⟨c, hs, he⟩ := hct
+    rw [hio] at hs
+    exact ⟨c, st1.trans hs, he⟩
+  | ok res s' =>
+    rw [hx] at hct
+    obtain ⟨a', b', mem', hs, rep', hres, frm2⟩ := hct
+    rw [hio] at hs
+    refine ⟨a', b', mem', ?_, rep', hres, frm1.trans frm2⟩
+    rw [List.length_append, ← Nat.add_assoc]
+    exact st1.trans hs
+
+theorem noLoc_of_rep {G : GCtx} {pi : PInfo} {sp dep : Nat} {hi : Nat → Word} {σ : X.St} {mem : Mem}
+    (rep : Rep (KOf G pi sp dep hi) σ mem) : NoLoc G.pnames σ := by
+  intro g hg
+  exact rep.gvis g (List.mem_append_right _ (by simpa using hg))
+
+theorem getElem_map_wordOf (abase : Nat → Nat) (vs : List Val) (k : Nat) (hk : k < (vs.map (wordOf abase)).length) :
+    (vs.map (wordOf abase))[k] = wordOf abase (vs[k]'(by simpa using hk)) := by
+  simp
+
+/-- **A user call whose actuals may contain calls of pure functions.** -/
+theorem exec_usercallP {G : GCtx} (ok : G.OK) (pk : PureOk G.xc) (fuel : Nat) (hcs : CallSpec G fuel) {pi : PInfo} (hpi : pi ∈ G.procs)
+    {pj : PInfo} (hpj : pj ∈ G.procs) (sp dep : Nat) (hi : Nat → Word) (hlo : G.lo ≤ sp) (hspv : sp + G.S pi + pi.po + pi.p.formals.length ≤ G.spv + 1)
+    (hstack : G.spv ≤ sp + dep * G.smax)
+    (es : List X.Expr) (fuel' : Nat) (hleaf : ∀ k, k ≤ fuel' → CallLeaf (KOf G pi sp dep hi) G.pnames k)
+    (st s : X.St) (ws : List Val) (hp : ∀ e ∈ es, ppE G.pnames G.xc.impure e = true)
+    (hev : X.evalArgs fuel' G.xc es st = .ok ws s)
+    (gs : GS) (code : Code) (gs' : GS) (i : Nat) (a b : Word) (mem : Mem)
+    (hg : callSeq pj.callKind (optArgsOf G.rho es).length (countCalls (optArgsOf G.rho es))
+            (genCallActuals (G.ctxOf pi) (optArgsOf G.rho es))
+            (fun p sv => loadActuals (G.ctxOf pi) (optArgsOf G.rho es) p sv) gs = .ok (code, gs'))
+    (hat : At G.env.ds i (lowerCode G.cg code)) (hr : Rep (KOf G pi sp dep hi) st mem)
+    (hsz : gs'.size ≤ G.S pi) (hnl : pi.p.locals.length ≤ gs.offset) (hci : ConstsIn (KOf G pi sp dep hi) gs') :
+    match X.callUser fuel G.xc pj.p ws s with
+    | .ok res s' => ∃ a' b' mem', Steps G.env (cfg i a b mem) st.io (cfg (i + (lowerCode G.cg code).length) a' b' mem') s'.io ∧
+        Rep (KOf G pi sp dep hi) s' mem' ∧ (pj.p.isFunc = true → ∀ w, res = some w → a' = w) ∧
+        FrmC (KOf G pi sp dep hi) gs.offset (G.S pi) mem mem'
+    | .exit cd s' => ∃ c, Steps G.env (cfg i a b mem) st.io c s'.io ∧ Exit G.env c s'.io cd
+    | .undef _ => True := by
+  have wf := ok.wfs pi hpi sp dep hi hlo hspv
+  have hps : ∀ g, G.pnames.contains g = true → ∃ p, G.xc.genv.lookup g = some (.proc p) :=
+    fun g hg => ok.pnames_mem g (by simpa using hg)
+  obtain ⟨hsim, hlenv, hokv, hsave, hload⟩ := ppArgs_specs (KOf G pi sp dep hi) wf.toWF G.pnames pk hps es fuel' hleaf st st s ws mem
+    hp (Sim.refl _) (noLoc_of_rep hr) hr hev
+  obtain ⟨c1, gs1, c2, gs2, h1, h2, hcode, hgs'⟩ := callSeq_inv _ _ _ _ _ _ _ _ hg
+  have hlen : (optArgsOf G.rho es).length = es.length := by simp [optArgsOf]
+  have hlenW : (optArgsOf G.rho es).length = (ws.map (wordOf G.abase)).length := by simp [optArgsOf, hlenv]
+  obtain ⟨f1o, f1s, f1c, f1os⟩ := genCallActuals_facts _ _ _ _ _ h1
+  simp only at f1o f1s f1c f1os
+  obtain ⟨b1o, b1s, _, b1p, b1c⟩ := bumpN_facts (countCalls (optArgsOf G.rho es)) { gs1 with offset := gs.offset }
+  simp only at b1o b1s b1p b1c
+  rw [callKind_po] at h2
+  obtain ⟨e2o, e2s, _, e2c⟩ := loadActuals_eff _ _ _ _ _ _ _ h2
+  subst hgs'
+  simp only [callKind_po, hlen] at hsz hci
+  subst hcode
+  simp only [lowerCode_append, List.append_assoc] at hat ⊢
+  have hpo := po_pos pj
+  have hb : gs2.size + (es.length + pj.po) ≤ G.S pi := Nat.le_trans (Nat.le_max_right _ _) hsz
+  have hci2 : ConstsIn (KOf G pi sp dep hi) gs2 := hci
+  have hcib : ConstsIn (KOf G pi sp dep hi) (bumpN (countCalls (optArgsOf G.rho es)) { gs1 with offset := gs.offset }) :=
+    fun x hx => hci2 x (e2c x hx)
+  have hci1 : ConstsIn (KOf G pi sp dep hi) gs1 := fun x hx => hcib x (by rw [b1c]; exact hx)
+  -- the actuals with calls are parked
+  obtain ⟨a1, b1, mem1, st1, rep1, hsv, _, _, _, frm1⟩ := exec_saveItems (KOf G pi sp dep hi) wf.toWF st _ _ hlenW hsave
+    { gs with size := gs.offset } c1 gs1 i a b mem h1 hat.left hr (by show gs1.size ≤ G.S pi; omega) hnl
+    (f1os (Nat.le_refl _)) hci1
+  -- all actuals into their parameter slots
+  have hboff : gs.offset ≤ (bumpN (countCalls (optArgsOf G.rho es)) { gs1 with offset := gs.offset }).size := by
+    by_cases hn : 0 < countCalls (optArgsOf G.rho es)
+    · have := b1p hn; omega
+    · omega
+  obtain ⟨a2, b2, mem2, st2, rep2, hvals, _, frm2⟩ := exec_loadItems (KOf G pi sp dep hi) wf.toWF st _ _ hlenW hload
+    pj.po gs.offset _ c2 gs2 (i + (lowerCode G.cg c1).length) a1 b1 mem1 h2 hat.right.left rep1 hsv
+    (by rw [b1o]; exact Nat.le_refl _) (by show gs2.size + (pj.po + (optArgsOf G.rho es).length) ≤ G.S pi; rw [hlen]; omega)
+    (by rw [b1o]; show pi.p.locals.length ≤ gs.offset + _; omega)
+    (by rw [b1o]; by_cases hn : 0 < countCalls (optArgsOf G.rho es)
+        · exact b1p hn
+        · omega) hci2
+  -- the call
+  have rep2s : Rep (KOf G pi sp dep hi) s mem2 := rep2.sim hsim
+  have hio : s.io = st.io := hsim.2.2.2.1.symm
+  have hwl : ws.length = es.length := hlenv.symm
+  have hct := exec_calltail ok fuel hcs hpi hpj sp dep hi hlo hspv hstack s ws hokv gs2.labelCount gs.offset
+    (i + (lowerCode G.cg c1).length + (lowerCode G.cg c2).length) a2 b2 mem2
+    (by have := hat.right.right; simpa [Nat.add_assoc] using this) rep2s
+    (fun k hk => by
+      have := hvals k (by simpa using hk)
+      rw [getElem_map_wordOf] at this
+      exact this)
+    (by omega) (by omega) (by omega)
+  have frm12 : FrmC (KOf G pi sp dep hi) gs.offset (G.S pi) mem mem2 :=
+    frm1.trans (frm2.mono (by rw [b1o]; omega) (Nat.le_refl _))
+  cases hx : X.callUser fuel G.xc pj.p ws s with
+  | undef w => trivial
+  | exit cd s' =>
+    rw [hx] at hct
+    obtain ⟨c, hs, he⟩ := hct
+    rw [hio] at hs
+    exact ⟨c, st1.trans (st2.trans hs), he⟩
+  | ok res s' =>
+    rw [hx] at hct
+    obtain ⟨a', b', mem', hs, rep', hres, frm3⟩ := hct
+    rw [hio] at hs
+    refine ⟨a', b', mem', ?_, rep', hres, frm12.trans frm3⟩
+    simp only [List.length_append, ← Nat.add_assoc]
+    exact st1.trans (st2.trans hs)
+
+/-- What a call needs of its actuals (the actuals and the callee both run with fuel `f`): the
+    code of the whole calling sequence does what evaluating the actuals and calling does. -/
+structure ArgsOK (G : GCtx) (pi : PInfo) (sp dep : Nat) (hi : Nat → Word) (f : Nat) (args : List X.Expr) : Prop where
+  call : (∀ k, k ≤ f → CallSpec G k) → ∀ pj, pj ∈ G.procs → ∀ (st : X.St) (gs : GS) (code : Code) (gs' : GS) (i : Nat)
+      (a b : Word) (mem : Mem),
+    callSeq pj.callKind (optArgsOf G.rho args).length (countCalls (optArgsOf G.rho args))
+      (genCallActuals (G.ctxOf pi) (optArgsOf G.rho args))
+      (fun p sv => loadActuals (G.ctxOf pi) (optArgsOf G.rho args) p sv) gs = .ok (code, gs') →
+    At G.env.ds i (lowerCode G.cg code) → Rep (KOf G pi sp dep hi) st mem →
+    gs'.size ≤ G.S pi → pi.p.locals.length ≤ gs.offset → ConstsIn (KOf G pi sp dep hi) gs' →
+    match X.evalArgs f G.xc args st with
+    | .ok vs s =>
+      (match X.callUser f G.xc pj.p vs s with
+       | .ok res s' => ∃ a' b' mem', Steps G.env (cfg i a b mem) st.io (cfg (i + (lowerCode G.cg code).length) a' b' mem') s'.io ∧
+           Rep (KOf G pi sp dep hi) s' mem' ∧ (pj.p.isFunc = true → ∀ w, res = some w → a' = w)
+       | .exit cd s' => ∃ c, Steps G.env (cfg i a b mem) st.io c s'.io ∧ Exit G.env c s'.io cd
+       | .undef _ => True)
+    | .exit cd s => ∃ c, Steps G.env (cfg i a b mem) st.io c s.io ∧ Exit G.env c s.io cd
+    | .undef _ => True
+
+section
+variable {G : GCtx} (ok : G.OK) {pi : PInfo} (hpi : pi ∈ G.procs) (sp dep : Nat) (hi : Nat → Word)
+    (hlo : G.lo ≤ sp) (hspv : sp + G.S pi + pi.po + pi.p.formals.length ≤ G.spv + 1) (hstack : G.spv ≤ sp + dep * G.smax)
+include ok hpi hlo hspv hstack
+
+theorem argsOK_pure (f : Nat) (args : List X.Expr) (hp : ∀ e ∈ args, pureE e = true) : ArgsOK G pi sp dep hi f args := by
+  refine ⟨fun hcs pj hpj st gs code gs' i a b mem hg hat hr hsz hnl hci => ?_⟩
+  cases hev : X.evalArgs f G.xc args st with
+  | undef w => trivial
+  | exit c s => exact absurd hev (evalArgs_pure_no_exit G.xc args f st c s hp)
+  | ok vs s =>
+    simp only
+    have h := exec_usercall ok f (hcs f (Nat.le_refl _)) hpi hpj sp dep hi hlo hspv hstack args f st s vs hp hev gs code gs' i a b mem
+      hg hat hr hsz hnl hci
+    cases hx : X.callUser f G.xc pj.p vs s with
     | undef w => trivial
-    | exit cd s' =>
-      rw [hx] at hspec
-      obtain ⟨c, hs, he⟩ := hspec
-      rw [hio] at hs
-      exact ⟨c, st1.trans (Steps.step _ _ _ _ _ _ sLdap (Steps.step _ _ _ _ _ _ sBr hs)), he⟩
-    | ok res s' =>
-      rw [hx] at hspec
-      obtain ⟨a2, b2, mem2, hs, grep2, h21, hkeep, hres, _⟩ := hspec
-      rw [hio] at hs
-      obtain ⟨hl', hd'⟩ := callUser_frame _ _ _ _ _ _ _ hx
-      have rep2 := rep_return ok hpi sp dep hi hlo hspv rep1s grep2 hl' hd' h21 2
-        (fun x hx hna => hkeep x (by omega) (by omega) hna) (by omega)
-      have sLab := Step.label (env := G.env) (cfg (i + (lowerCode G.cg c2).length + 2) a2 b2 mem2) s'.io _ _ t2
-      have sLdam := Step.ldam (env := G.env) (cfg (i + (lowerCode G.cg c2).length + 2 + 1) a2 b2 mem2) s'.io 1 _ t3 (ld_one mem2)
-      have hs1lt : sp + 1 < memWords := by have := ok.top; unfold memWords at *; omega
-      have l3 : Isa.ld mem2 (mem2.read 1 + IAm.W 1) = some (mem2.read (sp + 1)) := by
-        rw [h21, W_one]
-        have := ofNat_add_W sp 1
-        rw [show IAm.W ((1 : Nat) : Int) = 1 from W_one] at this
-        rw [this, ld_ofNat _ _ hs1lt]
-      have sLdai := Step.ldai (env := G.env) (cfg (i + (lowerCode G.cg c2).length + 2 + 1 + 1) (mem2.read 1) b2 mem2) s'.io 1 _ t4 l3
-      refine ⟨mem2.read (sp + 1), b2, mem2, ?_, rep2, fun _ w hw => hres w hw,
-        frm1.trans (hfrm 2 mem1 mem2 (by omega) (fun x hx hna => hkeep x (by omega) (by omega) hna))⟩
-      have : i + ((lowerCode G.cg c2).length + [Dir.ref 0x5 (lab gs2.labelCount) true, .ref 0x9 pj.p.name true,
-          .label .plain (lab gs2.labelCount), .imm 0x0 1, .imm 0x6 1].length)
-          = i + (lowerCode G.cg c2).length + 2 + 1 + 1 + 1 := by simp; omega
-      rw [List.length_append, this]
-      exact st1.trans (Steps.step _ _ _ _ _ _ sLdap (Steps.step _ _ _ _ _ _ sBr (hs.trans
-        (Steps.step _ _ _ _ _ _ sLab (Steps.step _ _ _ _ _ _ sLdam (Steps.one sLdai))))))
-  | false =>
-    have hk : pj.callKind = .proc pj.p.name := by unfold PInfo.callKind; rw [hf]; rfl
-    have hpo1 : pj.po = 1 := by unfold PInfo.po; rw [hf]; rfl
-    rw [hk] at hat2 ⊢
-    have htail : lowerCode G.cg (callTail (.proc pj.p.name) gs2.labelCount)
-        = [.ref 0x5 (lab gs2.labelCount) true, .ref 0x9 pj.p.name true, .label .plain (lab gs2.labelCount)] := rfl
-    rw [htail] at hat2 ⊢
-    have t0 := hat2.get 0 _ rfl
-    have t1 := hat2.get 1 _ rfl
-    have t2 := hat2.get 2 _ rfl
-    simp only [Nat.add_zero] at t0
-    have lLnk := labelIdx_of_nodup _ _ _ _ ok.nodup t2
-    have haddr := ok.addr_lt _ _ _ t2
-    have sLdap := Step.ldapL (env := G.env) (cfg (i + (lowerCode G.cg c2).length) a1 b1 mem1) st.io _ _ t0 lLnk
-    have sBr := Step.br (env := G.env)
-      (cfg (i + (lowerCode G.cg c2).length + 1) (BitVec.ofNat 32 (G.env.addr (i + (lowerCode G.cg c2).length + 2))) b1 mem1)
-      st.io _ _ t1 lPro
-    have hspec := hcs pj hpj ws s (BitVec.ofNat 32 (G.env.addr (i + (lowerCode G.cg c2).length + 2))) b1 mem1 sp
-      (i + (lowerCode G.cg c2).length + 2) .plain _ grep rep1s.sp hokv
-      (fun j hj => by have := hvals j hj; rw [Nat.add_assoc] at this ⊢; exact this)
-      (by rw [hdep]; exact hstack) (by omega) hlo t2 (toNat_ofNat_lt _ haddr).symm
-    cases hx : X.callUser fuel G.xc pj.p ws s with
+    | exit cd s' => rw [hx] at h; exact h
+    | ok res s' => rw [hx] at h; obtain ⟨a', b', mem', h1, h2, h3, _⟩ := h; exact ⟨a', b', mem', h1, h2, h3⟩
+
+theorem argsOK_pp (pk : PureOk G.xc) (f : Nat) (hleaf : ∀ k, k ≤ f → CallLeaf (KOf G pi sp dep hi) G.pnames k)
+    (args : List X.Expr) (hp : ∀ e ∈ args, ppE G.pnames G.xc.impure e = true) : ArgsOK G pi sp dep hi f args := by
+  have hps : ∀ g, G.pnames.contains g = true → ∃ p, G.xc.genv.lookup g = some (.proc p) :=
+    fun g hg => ok.pnames_mem g (by simpa using hg)
+  refine ⟨fun hcs pj hpj st gs code gs' i a b mem hg hat hr hsz hnl hci => ?_⟩
+  cases hev : X.evalArgs f G.xc args st with
+  | undef w => trivial
+  | exit c s => exact absurd hev ((evalArgs_pp G.xc G.pnames hps pk f args st hp (noLoc_of_rep hr)).2 c s)
+  | ok vs s =>
+    simp only
+    have h := exec_usercallP ok pk f (hcs f (Nat.le_refl _)) hpi hpj sp dep hi hlo hspv hstack args f hleaf st s vs hp hev gs code gs' i a b mem
+      hg hat hr hsz hnl hci
+    cases hx : X.callUser f G.xc pj.p vs s with
     | undef w => trivial
-    | exit cd s' =>
-      rw [hx] at hspec
-      obtain ⟨c, hs, he⟩ := hspec
-      rw [hio] at hs
-      exact ⟨c, st1.trans (Steps.step _ _ _ _ _ _ sLdap (Steps.step _ _ _ _ _ _ sBr hs)), he⟩
-    | ok res s' =>
-      rw [hx] at hspec
-      obtain ⟨a2, b2, mem2, hs, grep2, h21, hkeep, _, hsame⟩ := hspec
-      rw [hio] at hs
-      obtain ⟨hl', hd'⟩ := callUser_frame _ _ _ _ _ _ _ hx
-      have rep2 := rep_return ok hpi sp dep hi hlo hspv rep1s grep2 hl' hd' h21 1
-        (fun x hx hna => by
-          by_cases h1 : x = sp + 1
-          · subst h1; exact hsame hf
-          · exact hkeep x (by omega) h1 hna) (by omega)
-      have sLab := Step.label (env := G.env) (cfg (i + (lowerCode G.cg c2).length + 2) a2 b2 mem2) s'.io _ _ t2
-      refine ⟨a2, b2, mem2, ?_, rep2, fun h => by simp at h,
-        frm1.trans (hfrm 1 mem1 mem2 (by omega) (fun x hx hna => by
-          by_cases h1 : x = sp + 1
-          · subst h1; exact hsame hf
-          · exact hkeep x (by omega) h1 hna))⟩
-      have : i + ((lowerCode G.cg c2).length + [Dir.ref 0x5 (lab gs2.labelCount) true, .ref 0x9 pj.p.name true,
-          .label .plain (lab gs2.labelCount)].length)
-          = i + (lowerCode G.cg c2).length + 2 + 1 := by simp; omega
-      rw [List.length_append, this]
-      exact st1.trans (Steps.step _ _ _ _ _ _ sLdap (Steps.step _ _ _ _ _ _ sBr (hs.trans (Steps.one sLab))))
+    | exit cd s' => rw [hx] at h; exact h
+    | ok res s' => rw [hx] at h; obtain ⟨a', b', mem', h1, h2, h3, _⟩ := h; exact ⟨a', b', mem', h1, h2, h3⟩
+
+end
 
 end Hex.C01s
